@@ -274,7 +274,12 @@ impl Model {
                         "nack" => ("C05", "C05:nack-not-available"),
                         _ => ("C01", "C01:available-message-not-returned"),
                     };
-                    self.flag(p, sig, format!("Pull(return_immediately) returned nothing although {} message(s) were available on {}", certain_at_call, short(sub)));
+                    let d = format!("Pull(return_immediately) returned nothing although {} message(s) were available on {}", certain_at_call, short(sub));
+                    if p != "C01" {
+                        // whatever made it unavailable, an unacknowledged message is not being redelivered
+                        self.flag("C01", "C01:unacked-message-not-redelivered", d.clone());
+                    }
+                    self.flag(p, sig, d);
                 }
             }
         }
